@@ -358,12 +358,18 @@ PROPS = {
              'justified claim failure, conservation at quiescence, no access outside the storage. Non-trivial: two claims (or a claim '
              'and a release) overlap in time and the queue was full at some instant. Distinct = distinct tapes.',
         stages=[
-            dict(h='mqconc', mode='enum', what='THREADS, 2 senders x 1 msg, depth 1, 1 retry, <=4 pre-emptions', params=dict(mode=0, depth=1, senders=2, msgs=1, retries=1, preempt=4, oracle=4),
+            dict(h='mqconc', mode='enum', what='THREADS, 2 senders x 1 msg, depth 1, 1 retry, bounded pre-emptions (params.preempt)', params=dict(mode=0, depth=1, senders=2, msgs=1, retries=1, preempt=4, oracle=4),
                  common=dict(split=5, maxruns=400000), thorough=dict(params=dict(preempt=5), maxruns=6000000)),
-            dict(h='mqconc', mode='enum', what='THREADS, 2 senders x 1 msg, depth 2, <=3 pre-emptions', params=dict(mode=0, depth=2, senders=2, msgs=1, retries=0, preempt=3, oracle=4),
+            dict(h='mqconc', mode='enum', what='THREADS, 2 senders x 1 msg, depth 2, bounded pre-emptions (params.preempt)', params=dict(mode=0, depth=2, senders=2, msgs=1, retries=0, preempt=3, oracle=4),
                  common=dict(split=5, maxruns=400000), thorough=dict(params=dict(preempt=5, msgs=2), maxruns=6000000)),
-            dict(h='mqconc', mode='enum', what='THREADS, 3 senders x 1 msg, depth 2, <=2 pre-emptions', params=dict(mode=0, depth=2, senders=3, msgs=1, retries=0, preempt=2, oracle=4),
+            dict(h='mqconc', mode='enum', what='THREADS, 3 senders x 1 msg, depth 2, bounded pre-emptions (params.preempt)', params=dict(mode=0, depth=2, senders=3, msgs=1, retries=0, preempt=2, oracle=4),
                  common=dict(split=5, maxruns=400000), thorough=dict(params=dict(preempt=3), maxruns=6000000)),
+            dict(h='mqconc', mode='enum', what='THREADS, 2 senders x 2 msgs, depth 1, 1 retry, bounded pre-emptions (params.preempt)', tiers=('thorough',),
+                 params=dict(mode=0, depth=1, senders=2, msgs=2, retries=1, preempt=3, oracle=4), common=dict(split=5, maxruns=6000000)),
+            dict(h='mqconc', mode='enum', what='THREADS, 3 senders x 1 msg, depth 1, 1 retry, bounded pre-emptions (params.preempt)', tiers=('thorough',),
+                 params=dict(mode=0, depth=1, senders=3, msgs=1, retries=1, preempt=3, oracle=4), common=dict(split=5, maxruns=6000000)),
+            dict(h='mqconc', mode='enum', what='THREADS, 2 senders x 2 msgs, depth 2, first message held, bounded pre-emptions (params.preempt)', tiers=('thorough',),
+                 params=dict(mode=0, depth=2, senders=2, msgs=2, retries=0, hold=1, preempt=3, oracle=4), common=dict(split=5, maxruns=6000000)),
             dict(h='mqconc', mode='enum', what='ISR, 2 nested senders interrupt the receiver, depth 1, all placements', params=dict(mode=1, roles=0, depth=1, senders=2, msgs=1, retries=0, oracle=4),
                  common=dict(split=4, maxruns=400000)),
             dict(h='mqconc', mode='enum', what='ISR, 3 nested senders x 2 msgs interrupt the receiver, depth 2', params=dict(mode=1, roles=0, depth=2, senders=3, msgs=2, retries=0, oracle=4),
@@ -402,6 +408,14 @@ PROPS = {
                  params=dict(mode=0, len=L, puts=3, gets=4, pre=pre, empties=1, oracle=5), workers=4, common=dict(split=4, maxruns=2000000))
             for L in (2, 3) for pre in range(L)
         ] + [
+            dict(h='ringconc', mode='enum', what='THREADS len 4, 4 puts, 5 consumer ops, start offset %d, bounded pre-emptions (params.preempt)' % pre, tiers=('thorough',),
+                 params=dict(mode=0, len=4, puts=4, gets=5, pre=pre, empties=1, preempt=7, oracle=5), workers=4, common=dict(split=4, maxruns=4000000))
+            for pre in range(4)
+        ] + [
+            dict(h='ringconc', mode='enum', what='THREADS len 3, 3 putchar (spinning), 4 consumer ops, start offset %d, bounded pre-emptions (params.preempt)' % pre, tiers=('thorough',),
+                 params=dict(mode=0, len=3, puts=3, gets=4, pre=pre, putchar=1, preempt=6, oracle=5), workers=4, common=dict(split=4, maxruns=4000000))
+            for pre in range(3)
+        ] + [
             dict(h='ringconc', mode='enum', what='ISR roles %d, len 3, 4 puts, 4 gets, every access' % r,
                  params=dict(mode=1, roles=r, len=3, puts=4, gets=4, pre=2, every_access=1, oracle=5), workers=4, common=dict(split=4, maxruns=2000000))
             for r in (0, 1)
@@ -435,12 +449,12 @@ PROPS = {
                  workers=2, common=dict(split=3, maxruns=1500000))
             for (sc, hs, ea, ed) in [(0, (3, 1), 1, 1), (0, (4, 3, 2), 0, 2), (1, (3, 0), 1, 1), (1, (5, 3, 1), 0, 1), (2, (2, 3), 1, 2), (2, (1, 2, 0), 0, 1), (3, (3, 3), 1, 1), (3, (4, 4, 1), 0, 2), (4, (1, 2), 1, 1), (4, (2, 1, 1), 0, 1)]
         ] + [
-            dict(h='fibconc', mode='enum', what='THREADS, script 3, event sender + run_atomic thread, <=2 pre-emptions',
+            dict(h='fibconc', mode='enum', what='THREADS, script 3, event sender + run_atomic thread, bounded pre-emptions (params.preempt)',
                  params=dict(mode=0, script=3, oracle=6, handlers=2, evdepth=1, h0=3, h1=1, preempt=2), workers=4,
                  common=dict(split=3, maxruns=1500000), thorough=dict(params=dict(preempt=3), maxruns=6000000)),
             dict(h='conconc', mode='enum', what='console fed by 2 interrupt-context injectors, every access, all placements', params=dict(mode=1, injectors=2, every_access=1, passes=3, oracle=6),
                  workers=4, common=dict(split=3, maxruns=1500000)),
-            dict(h='conconc', mode='enum', what='console fed by an injector thread, <=2 pre-emptions', params=dict(mode=0, passes=3, preempt=2, oracle=6),
+            dict(h='conconc', mode='enum', what='console fed by an injector thread, bounded pre-emptions (params.preempt)', params=dict(mode=0, passes=3, preempt=2, oracle=6),
                  workers=2, common=dict(split=3, maxruns=1500000)),
             dict(h='conconc', mode='rc', what='console fed from interrupt / thread context, random', params=dict(oracle=6),
                  quick=dict(cases=20000, len=300), thorough=dict(cases=1000000, len=300)),
@@ -467,7 +481,7 @@ PROPS = {
              'written by one context and read by another, or a wake-up request). Distinct = distinct tapes. Thorough adds real pthreads '
              'under the real ThreadSanitizer.',
         stages=[
-            dict(h='mqconc', mode='enum', what='message queue, THREADS, 2 senders x 1, depth 2, <=3 pre-emptions', params=dict(mode=0, depth=2, senders=2, msgs=1, retries=0, preempt=3, oracle=7),
+            dict(h='mqconc', mode='enum', what='message queue, THREADS, 2 senders x 1, depth 2, bounded pre-emptions (params.preempt)', params=dict(mode=0, depth=2, senders=2, msgs=1, retries=0, preempt=3, oracle=7),
                  workers=4, common=dict(split=5, maxruns=400000)),
             dict(h='mqconc', mode='enum', what='message queue, ISR every-access, 3 nested senders', params=dict(mode=1, roles=0, depth=1, senders=3, msgs=1, retries=0, every_access=1, oracle=7),
                  workers=4, common=dict(split=4, maxruns=400000)),
